@@ -202,7 +202,8 @@ Definition prop_ok (c : case) : bool :=
       (* the semantic layer only ever rejects more *)
       && (is_ok fp || negb (is_ok nf)) && (is_ok pp || negb (is_ok np))
       (* .config / empty key in a filter, .unit / empty key / unknown order /
-         fixed order on .config in a projection are rejected *)
+         fixed order on .config / fixed order without values (k@fixed) in a
+         projection are rejected, and nothing else is *)
       && match fp with
          | OOk x => if existsb (fun k => beq k key_config || match k with [] => true | _ => false end) (filter_keys x)
                     then negb (is_ok nf) else is_ok nf
@@ -212,12 +213,15 @@ Definition prop_ok (c : case) : bool :=
          | OOk l => if existsb (fun p => negb (known_order (pf_order p))
                                          || beq (pf_key p) key_unit
                                          || match pf_key p with [] => true | _ => false end
-                                         || (beq (pf_key p) key_config && beq (pf_order p) ord_fixed)) l
+                                         || (beq (pf_key p) key_config && beq (pf_order p) ord_fixed)
+                                         || (beq (pf_order p) ord_fixed && is_nil (pf_fixed p))) l
                     then negb (is_ok np) else is_ok np
          | _ => true
          end
-      (* an accepted fixed order with no values was spelled as the order name
-         fixed, never as an empty parenthesised list *)
+      (* syntax layer (ParseProjection): a fixed order with no values can only
+         come from the order name fixed spelled out, never from an empty
+         parenthesised list k@(); the semantic layer refuses it either way
+         (clause above) *)
       && match pp with
          | OOk l => forallb (fun p => negb (beq (pf_order p) ord_fixed && is_nil (pf_fixed p)
                                             && match nth_error q (pf_ooff p) with
